@@ -318,6 +318,7 @@ func (x *Executor) execLoop(fr *Frame, li *loopInfo, ins []incoming) map[*ssa.Ba
 		}
 		u.addObl(o)
 	}
+	// (auto-frame invariants are generated after the write set is known)
 	// 2. dry run to collect the write set
 	ws := newWriteSet()
 	{
@@ -356,6 +357,20 @@ func (x *Executor) execLoop(fr *Frame, li *loopInfo, ins []incoming) map[*ssa.Ba
 	}
 	if ws.all {
 		x.recordWriteAll()
+	}
+	// 2b. automatic frame invariant: locations allocated at function entry and not covered by
+	// the modifies clause keep their entry value (checked on entry and on every back edge).
+	var frameComps []string
+	if x.frame != nil && !x.frame.modAll && !ws.all && x.entry != nil {
+		for c := range ws.comps {
+			frameComps = append(frameComps, c)
+		}
+		sort.Strings(frameComps)
+		for _, c := range frameComps {
+			if goal, ok := x.frameGoal(c, stE); ok {
+				u.addObl(&Obligation{Name: fmt.Sprintf("%s:frame:%s:init", lname, c), Kind: "frame", Clause: "loop entry: only declared locations of " + c + " are modified", Goal: fmt.Sprintf("(=> %s %s)", reachE, goal)})
+			}
+		}
 	}
 	// 3. havoc write set
 	stH := stE.clone()
@@ -406,6 +421,27 @@ func (x *Executor) execLoop(fr *Frame, li *loopInfo, ins []incoming) map[*ssa.Ba
 	}
 	// heap well-formedness of havoced pointer locals is covered by wf on load.
 	// 4. assume invariants
+	if ri := rangeIndexAlloc(li); ri != nil {
+		if v, ok := stH.locals[localKey{ri, fr.id}]; ok {
+			// the hidden range counter starts at -1 and only increments; at the header it is
+			// below the length evaluated before the loop (by construction of the lowering)
+			u.assume(fmt.Sprintf("(>= %s (- 1))", v.T))
+			for _, in := range li.header.Instrs {
+				if bo, ok := in.(*ssa.BinOp); ok && bo.Op == token.LSS {
+					if lv, ok := fr.vals[bo.Y]; ok && lv.Addr == nil {
+						u.assume(fmt.Sprintf("(< %s %s)", v.T, lv.T))
+					} else if c, ok := bo.Y.(*ssa.Const); ok {
+						u.assume(fmt.Sprintf("(< %s %s)", v.T, x.value(fr, c).T))
+					}
+				}
+			}
+		}
+	}
+	for _, c := range frameComps {
+		if goal, ok := x.frameGoal(c, stH); ok {
+			u.assume(fmt.Sprintf("(=> %s %s)", reachE, goal))
+		}
+	}
 	for _, inv := range spec.Invariants {
 		t, err := x.evalLoopClause(fr, li, stH, inv.E)
 		if err == nil {
@@ -423,6 +459,11 @@ func (x *Executor) execLoop(fr *Frame, li *loopInfo, ins []incoming) map[*ssa.Ba
 	exits, backs := x.execRegion(fr, li, map[*ssa.BasicBlock][]incoming{li.header: {{cond: reachE, st: stH}}})
 	// 6. invariants on back edges
 	for bi, be := range backs {
+		for _, c := range frameComps {
+			if goal, ok := x.frameGoal(c, be.st); ok {
+				u.addObl(&Obligation{Name: fmt.Sprintf("%s:frame:%s:preserve.%d", lname, c, bi+1), Kind: "frame", Clause: "loop body: only declared locations of " + c + " are modified", Goal: fmt.Sprintf("(=> %s %s)", be.cond, goal)})
+			}
+		}
 		for _, inv := range spec.Invariants {
 			t, err := x.evalLoopClauseBack(fr, li, be.st, inv.E)
 			name := fmt.Sprintf("%s:inv%s:preserve", lname, clauseLabel(inv))
